@@ -572,6 +572,82 @@ mod imp {
         }
     }
 
+    /// free-running run with a BOUNDED second link: producer thread -> unbounded channel -> relay (polled by the
+    /// main thread) -> bounded(2) channel -> final store, which is polled by a third thread that starts late,
+    /// so that the relay runs into a full channel. At the end all three tables must be identical.
+    fn soak_bounded(seed: u64, ops: Vec<Vec<String>>, out: &mut Out) {
+        use std::sync::atomic::{AtomicBool, Ordering};
+        use std::sync::Arc;
+        let (tx1, rx1) = unbounded::<BddNode>();
+        let (tx2, rx2) = bounded::<BddNode>(2);
+        let mut relay = Bdd::with_sender_receiver(tx2, rx1);
+        let mut r = Rng::new(seed);
+        let producer = std::thread::spawn(move || -> Option<Vec<BddNode>> {
+            let mut bdd = Bdd::with_sender(tx1);
+            let mut hist = vec![Term::BOT, Term::TOP];
+            for o in ops.iter() {
+                let w: Vec<&str> = o.iter().map(|s| s.as_str()).collect();
+                let t = apply_op(&mut bdd, &hist, &w)?;
+                hist.push(t);
+            }
+            Some(bdd.nodes.clone())
+        });
+        let stop = Arc::new(AtomicBool::new(false));
+        let stop2 = stop.clone();
+        let consumer = std::thread::spawn(move || -> Bdd {
+            let mut recv = Bdd::with_receiver(rx2);
+            std::thread::sleep(std::time::Duration::from_millis(3));
+            loop {
+                let last = stop2.load(Ordering::SeqCst);
+                recv.recv(Term(usize::MAX));
+                if last {
+                    break;
+                }
+                std::thread::sleep(std::time::Duration::from_micros(100));
+            }
+            recv
+        });
+        let mut ok = true;
+        let mut polls = 0usize;
+        let mut mid = 0usize;
+        loop {
+            let done = producer.is_finished();
+            let len = relay.nodes.len();
+            let t = match r.below(3) {
+                0 => len,
+                1 => len + r.usize(4),
+                _ => r.usize(40),
+            };
+            let found = relay.recv(Term(t));
+            polls += 1;
+            ok &= found == (t < relay.nodes.len());
+            if relay.nodes.len() > 2 && !done {
+                mid += 1;
+            }
+            if done {
+                break;
+            }
+        }
+        let Ok(Some(p)) = producer.join() else {
+            stop.store(true, Ordering::SeqCst);
+            let _ = consumer.join();
+            out.line("= bad-request");
+            out.line("~ bad-request");
+            return;
+        };
+        ok &= !relay.recv(Term(usize::MAX));
+        stop.store(true, Ordering::SeqCst);
+        let Ok(recv) = consumer.join() else {
+            out.line("= panic");
+            out.line("~ panic");
+            return;
+        };
+        let same = relay.nodes == p && recv.nodes == p;
+        out.line(&format!("= {}", if same { table(&p) } else { format!("P {} R {} V {}", table(&p), dump_nodes(&relay), dump_nodes(&recv)) }));
+        out.line(&format!("~ soak {}", if ok && same { "ok" } else { "violated" }));
+        out.line(&format!("# case stream soak=1 bounded=1 nodes={} polls={} midstream={}", p.len() - 2, polls.min(10), mid.min(10)));
+    }
+
     /// free-running run: the producer thread executes the whole program sending into an unbounded
     /// channel; meanwhile the main thread polls relay and receiver at random handles.  Checked at
     /// every poll: answer ↔ handle present, receiver never ahead of the relay; at the end (producer
@@ -583,6 +659,9 @@ mod imp {
             .filter(|o| !o.is_empty())
             .map(|o| o.split(',').map(|w| w.to_string()).collect())
             .collect();
+        if seed % 3 == 0 {
+            return soak_bounded(seed, ops, out);
+        }
         let (tx1, rx1) = unbounded::<BddNode>();
         let (tx2, rx2) = unbounded::<BddNode>();
         let mut relay = Bdd::with_sender_receiver(tx2, rx1);
